@@ -139,7 +139,29 @@ func seqProfile(prop, tier string) *SeqProfile {
 	ops := func(cfg string, min int, note string) DesignRun {
 		return DesignRun{Module: "KlevSegOps.tla", Cfg: cfg, Workers: 16, Timeout: time.Duration(min) * time.Minute, Note: note}
 	}
+	seg := func(cfg string, min int, note string) DesignRun {
+		return DesignRun{Module: "MCKlevSeg.tla", Cfg: cfg, Workers: 16, Timeout: time.Duration(min) * time.Minute, Note: note}
+	}
+	bk := func(cfg string, min int, expect, note string) DesignRun {
+		return DesignRun{Module: "KlevBackup.tla", Cfg: cfg, Workers: 16, Timeout: time.Duration(min) * time.Minute, Note: note, Expect: expect}
+	}
 	switch prop {
+	case "C11":
+		p.Design = []DesignRun{seg(tierS(tier, "seg_index_q.cfg", "seg_index_t.cfg"), 40,
+			"KlevSeg with index-file removal, lazy rebuild (also by read-only handles), Check / Recover options, both versions, times {1,2} in any order: IndexDerived (file = derived index when times never decrease), IxRunInv (running maximum from a carried start otherwise), IndexLen, and every query invariant in every state")}
+	case "C17":
+		p.Design = []DesignRun{seg(tierS(tier, "seg_versions_q.cfg", "seg_versions_t.cfg"), 40,
+			"KlevSeg with Migrate, EagerVersionMigrate, KeepRewriteVersion and NewSegmentsVersion drawn at every open: Fidelity / NextDerivable / query invariants in every state, VersionRules (VersionsOK on every step: the predicate the trace specification applies to the real layouts), MigrateRules (content unchanged, twice = once)")}
+	case "C13":
+		p.Design = []DesignRun{seg(tierS(tier, "seg_versions_q.cfg", "seg_opts_t.cfg"), 40,
+			"the Stat part of C13 at design level: StatInv / real byte sizes of both format versions in every state (the byte layouts themselves are decided by the reference codec, not by a model)")}
+	case "C20":
+		p.Design = []DesignRun{
+			bk(tierS(tier, "backup_q.cfg", "backup_t.cfg"), 40, "", "KlevBackup.tla: the per-file copy loop with the size+mtime skip rule over KlevSeg's directory, a clock that may stand still, index removal: BackupExact / BackupOpensSame after every backup under the append-only premise"),
+			bk("backup_versions_t.cfg", 60, "", "thorough-only: the same with both format versions"),
+			bk("backup_no_size.cfg", 10, "BackupExact", "negative control: skipping on the modification time alone is refuted by a clock that stands still"),
+			bk("backup_no_premise.cfg", 10, "BackupExact", "negative control: without the append-only premise a Delete between two backups leaves a stale target"),
+			bk("backup_no_ixremove.cfg", 10, "BackupExact", "negative control: the behaviour before the repair F05 (a missing source index keeps a stale target index)")}
 	case "C15":
 		p.Design = []DesignRun{
 			ops(tierS(tier, "ops_trim_q.cfg", "ops_trim_t.cfg"), 30, "KlevSegOps: FindBy* transcriptions + DeleteMulti loop against FindBy*OK / TrimApplied in every state, time index on"),
@@ -241,7 +263,9 @@ func seqProfile0(prop, tier string) *SeqProfile {
 	case "C08":
 		return &SeqProfile{Prop: prop, NRandom: 0, Module: "TraceLin.tla", Cfg: "TraceLin.cfg",
 			Design: []DesignRun{{Module: "KlevConc.tla", Cfg: tierS(tier, "conc_q.cfg", "conc_t.cfg"), Workers: 16, Timeout: 20 * time.Minute,
-				Note: "KlevConc.tla: lock-level model with reader object identity; every result checked at its linearization point, full scan = abstract log at quiescence, head flag only on the last reader"}},
+				Note: "KlevConc.tla: lock-level model with reader object identity; every result checked at its linearization point, full scan = abstract log at quiescence, head flag only on the last reader"},
+				{Module: "KlevConc.tla", Cfg: "conc_f13.cfg", Workers: 4, Timeout: 10 * time.Minute, Expect: "QuiescentOK,HeadFlagOK",
+					Note: "negative control: the model of the code before the repair of F13 (stale head reader) must violate QuiescentOK or HeadFlagOK"}},
 			Extra: runC08,
 			Rule: "C08: a case is one concurrent history of the real code, built with the race detector: (i) seeded free-running mixes (2-5 goroutines x 3-8 calls of Publish, Consume, Get, GetByKey, ConsumeByKey, GetByTime, Delete, Sync, NextOffset, Stat, GC on prepared small-rollover logs with holes, warm and cold readers, KeepRewriteVersion on/off), (ii) window placement: a call A (Publish with/without rollover, Delete in head/reader segment, Consume with reader load, GC) is held at one of 19 pause points and two further calls run inside the window (or block on A's locks), then a closing scan. TLC (TraceLin) searches a linearization of every history against KlevAbs; a data race report of the race detector is a violation of its own.",
 			Assume: []string{"the Go race detector decides data-race freedom on the schedules that occur", "a call that does not finish within 25 ms inside a window is classified as blocked and stays pending until the window closes"},
@@ -310,6 +334,10 @@ func seqProfile0(prop, tier string) *SeqProfile {
 		if !ploss {
 			design = []DesignRun{{Module: "KlevFS.tla", Cfg: tierS(tier, "fs_q.cfg", "fs_t.cfg"), Workers: 16, Timeout: 30 * time.Minute,
 				Note: "KlevFS.tla: operations compiled to plans of file-system primitives; Crash1/Crash2 = every plan prefix and torn class of every enabled operation (and of the recovery plan itself) recovers to an allowed state; KF-C05-1 exempted by its signature"}}
+			for _, c := range []string{"FixRecoverStale", "FixShortHdr", "FixTailOrder", "KnownRebase"} {
+				design = append(design, DesignRun{Module: "KlevFS.tla", Cfg: "fs_no_" + c + ".cfg", Workers: 4, Timeout: 10 * time.Minute, Expect: "Crash1,Crash2",
+					Note: "negative control: the model with " + c + " switched off (the code before the repair / the open finding without its exemption) must violate Crash1 or Crash2"})
+			}
 		}
 		return &SeqProfile{Prop: prop, Gen: g, Design: design, NRandom: tierN(tier, 40, 600), Module: "TraceCrash.tla", Cfg: "TraceCrash.cfg",
 			RunHist: func(r *SeqRun, h *History, tw *TraceWriter, root string) {
